@@ -6,6 +6,9 @@ use std::panic::{catch_unwind, AssertUnwindSafe};
 thread_local! {
     static LAST_PANIC: RefCell<Option<String>> = const { RefCell::new(None) };
 }
+/// last panic of ANY thread (fallback: a panic inside a rayon worker is re-raised in the
+/// calling thread without going through the hook again)
+static LAST_PANIC_ANY: std::sync::Mutex<Option<String>> = std::sync::Mutex::new(None);
 
 /// Panic hook that prints nothing and remembers `file:line: message` per thread.
 pub fn install_quiet_panic_hook() {
@@ -21,6 +24,9 @@ pub fn install_quiet_panic_hook() {
         } else {
             "<non-string panic>".into()
         };
+        if let Ok(mut g) = LAST_PANIC_ANY.lock() {
+            *g = Some(format!("{}|{}", loc, msg));
+        }
         LAST_PANIC.with(|p| *p.borrow_mut() = Some(format!("{}|{}", loc, msg)));
     }));
 }
@@ -61,6 +67,7 @@ pub fn catch<T>(f: impl FnOnce() -> T) -> Result<T, PanicInfo> {
         Err(_) => {
             let s = LAST_PANIC
                 .with(|p| p.borrow_mut().take())
+                .or_else(|| LAST_PANIC_ANY.lock().ok().and_then(|g| g.clone()))
                 .unwrap_or_else(|| "?|?".into());
             let (loc, msg) = s.split_once('|').unwrap_or(("?", "?"));
             Err(PanicInfo {
